@@ -810,33 +810,172 @@ fn drive_type_strings(sink: &mut Sink, rng: &mut Rng, n: usize) {
 const COMB_PIECES: &[&str] = &["a", "b", "/", "/", ":", ":", "@", ".", "é", "%2F", " ", "", "x/y", "g:a"];
 
 #[cfg(feature = "pt")]
-fn drive_combined(sink: &mut Sink, rng: &mut Rng, n: usize) {
+fn comb_event(sink: &mut Sink, tn: &str, s: &str) {
     use purl::{PackageType, Purl};
+    let t = <PackageType as FromStr>::from_str(tn).expect("known type");
+    let r = catch_unwind(AssertUnwindSafe(|| {
+        let b = Purl::builder_with_combined_name(t, s);
+        let split = json!({"ns": cps(&b.parts.namespace), "name": cps(&b.parts.name)});
+        let built = b.build();
+        let (joined, inverse) = match &built {
+            Ok(p) => {
+                let j = p.combined_name().into_owned();
+                let b2 = Purl::builder_with_combined_name(t, &j);
+                (json!({"some": true, "x": cps(&j)}), json!({"ns": cps(&b2.parts.namespace), "name": cps(&b2.parts.name)}))
+            },
+            Err(_) => (json!({"some": false}), json!({})),
+        };
+        (split, for_tlc(&outcome::<PackageType, purl::PackageError>(Ok(built))), joined, inverse)
+    }));
+    match r {
+        Err(_) => sink.emit(json!({"ev": "comb", "t": cps(tn), "s": cps(s), "panic": true})),
+        Ok((split, out, joined, inverse)) => sink.emit(json!({"ev": "comb", "t": cps(tn), "s": cps(s), "split": split, "out": out,
+                                                               "joined": joined, "inverse": inverse, "lc": lc_table(&[s])})),
+    }
+}
+
+#[cfg(feature = "pt")]
+fn drive_combined(sink: &mut Sink, rng: &mut Rng, n: usize) {
     for _ in 0..n {
         let tn = ps(rng, TYPE_NAMES);
-        let t = <PackageType as FromStr>::from_str(tn).expect("known type");
         let mut s = String::new();
         for _ in 0..rng.below(7) {
             s.push_str(ps(rng, COMB_PIECES));
         }
-        let r = catch_unwind(AssertUnwindSafe(|| {
-            let b = Purl::builder_with_combined_name(t, &s);
-            let split = json!({"ns": cps(&b.parts.namespace), "name": cps(&b.parts.name)});
-            let built = b.build();
-            let (joined, inverse) = match &built {
-                Ok(p) => {
-                    let j = p.combined_name().into_owned();
-                    let b2 = Purl::builder_with_combined_name(t, &j);
-                    (json!({"some": true, "x": cps(&j)}), json!({"ns": cps(&b2.parts.namespace), "name": cps(&b2.parts.name)}))
-                },
-                Err(_) => (json!({"some": false}), json!({})),
-            };
-            (split, for_tlc(&outcome::<PackageType, purl::PackageError>(Ok(built))), joined, inverse)
-        }));
-        match r {
-            Err(_) => sink.emit(json!({"ev": "comb", "t": cps(tn), "s": cps(&s), "panic": true})),
-            Ok((split, out, joined, inverse)) => sink.emit(json!({"ev": "comb", "t": cps(tn), "s": cps(&s), "split": split, "out": out,
-                                                                   "joined": joined, "inverse": inverse, "lc": lc_table(&[&s])})),
+        comb_event(sink, tn, &s);
+    }
+}
+
+/// One builder call sequence as a `bseq` event (generic: String; typed: PackageType), with the parse of its printed form.
+fn emit_bseq(sink: &mut Sink, typed: bool, ops: Vec<Value>, refs: &[&str]) {
+    let (out, back) = if typed {
+        #[cfg(feature = "pt")]
+        {
+            let (o, c) = bseq_run::<purl::PackageType>(&ops);
+            (o, c.as_ref().map(|c| replay::parse_outcome::<purl::PackageType>(c).0))
+        }
+        #[cfg(not(feature = "pt"))]
+        {
+            (Value::Null, None)
+        }
+    } else {
+        let (o, c) = bseq_run::<String>(&ops);
+        (o, c.as_ref().map(|c| replay::parse_outcome::<String>(c).0))
+    };
+    if typed && !cfg!(feature = "pt") {
+        return;
+    }
+    sink.emit(json!({"ev": "bseq", "sh": if typed { "typed" } else { "generic" }, "ops": ops, "out": for_tlc(&out),
+                     "back": back.map(|b| for_tlc(&b)).unwrap_or(json!({"none": true})), "lc": lc_table(refs)}));
+}
+
+/// Systematic sweeps over two-character contexts that random strings rarely hit:
+///  - every `%XY` with X, Y from class representatives (thorough: all printable ASCII) in every decoded component;
+///  - every ASCII byte (and some non-ASCII characters) as a checksum digest character, raw and escaped, parsed and built.
+fn drive_escapes(sink: &mut Sink, _rng: &mut Rng, n: usize) {
+    let reps: Vec<char> = if n >= 2 { (0x20u8..0x7f).map(|b| b as char).collect() } else { "09afAFgGzZ+-. %/_:xX\u{0}".chars().collect() };
+    for x in &reps {
+        for y in &reps {
+            let e = format!("%{}{}", x, y);
+            if n >= 2 {
+                parse_all(sink, &format!("pkg:t/a{}b", e));
+            } else {
+                for s in [format!("pkg:t/a{}b", e), format!("pkg:t/a{}b/n", e), format!("pkg:t/n@1{}", e), format!("pkg:t/n?k=v{}", e), format!("pkg:t/n#s{}t", e)] {
+                    parse_all(sink, &s);
+                }
+            }
+        }
+    }
+    let mut digits: Vec<char> = (0u8..0x80).map(|b| b as char).collect();
+    digits.extend(['\u{80}', '\u{e9}', '\u{ff}', '\u{130}', '\u{660}', '\u{ff10}', '\u{ff21}', '\u{1d7d8}']);
+    for c in digits {
+        let mut esc = String::new();
+        let mut buf = [0u8; 4];
+        for b in c.encode_utf8(&mut buf).bytes() {
+            esc.push_str(&format!("%{:02X}", b));
+        }
+        let raw_ok = !matches!(c, '&' | '#' | '%');
+        for d in [format!("{c}{c}"), format!("0{c}"), format!("{c}0"), format!("{c}")] {
+            if raw_ok {
+                parse_all(sink, &format!("pkg:t/n?checksum=a:{}", d));
+            }
+            let v = format!("a:{}", d);
+            emit_bseq(sink, false, vec![json!(["new", cps("t"), cps("n")]), json!(["with_qualifier", cps("checksum"), cps(&v)])], &[&v]);
+        }
+        parse_all(sink, &format!("pkg:t/n?checksum=a:{}{}", esc, esc));
+        parse_all(sink, &format!("pkg:t/n?checksum=a:0{}", esc));
+    }
+}
+
+// The vocabulary of real package URLs: a change that special-cases one well-known key, value, version shape or
+// naming convention of one ecosystem is invisible to generators that draw from small abstract alphabets.
+const V_TYPES: &[&str] = &["generic", "maven", "npm", "golang", "pypi", "nuget", "cargo", "gem", "deb", "docker", "github", "oci", "rpm", "conan", "hex", "swift"];
+const V_NS: &[&str] = &["", "org.apache.commons", "@angular", "github.com/go-redis/redis", "library", "debian", "Some.Group", "gopkg.in", "k8s.io/api"];
+const V_NAMES: &[&str] = &["io", "cli", "v8", "v2", "v10", "redis", "Django_.-pkg", "Newtonsoft.Json", "yaml.v3", "commons-io", "curl", "jar", "type"];
+const V_VERS: &[&str] = &["", "1.0.0", "v8.11.5", "2", "10", "1a", "1.2.0", "1.10.0", "1.1rc.0", "1.0.0-rc.1+build.5", "sha256:abcd", "latest", "v2", "7.50.3-1"];
+const V_KEYS: &[&str] = &["repository_url", "download_url", "vcs_url", "file_name", "checksum", "arch", "os", "distro", "type", "classifier", "platform",
+                          "ext", "packaging", "epoch", "tag", "channel", "subdir", "build", "Type", "VCS_URL"];
+const V_VALS: &[&str] = &["jar", "pom", "sources", "war", "zip", "linux", "amd64", "x86_64", "noarch", "java", "ruby", "1", "true",
+                          "git+https://git.fsfe.org/dxtr/bitwarderl@cc55108da32", "https://repo.example.org/a?b=c&d=e#f", "docker.io/library/debian",
+                          "sha1:ad9503c3e994a4f611a4892f2e67ac82df727086", "sha256:AABB,md5:00ff", "sha512-256:a1,sha512:a0", "debian-11", " "];
+const V_SUBS: &[&str] = &["", "src/main", "cmd/tool/v2", "googleapis/api/annotations", "v2"];
+const V_COMBINED: &[&str] = &["github.com/go-redis/redis/v8", "a/v2", "a/v10/b", "example.com/m/v10", "gopkg.in/yaml.v3", "k8s.io/api/v0", "@angular/cli", "@types%2Fnode",
+                              "@types/node/v2", "org.apache.commons:io", "g:a:v2", "org.apache:commons/io", "libc", "v2", "/v2", "a/v2/"];
+
+fn drive_vocab(sink: &mut Sink, _rng: &mut Rng, n: usize) {
+    let types: &[&str] = if n >= 2 { V_TYPES } else { &V_TYPES[..8] };
+    let typed_of = |t: &str| TYPE_NAMES.contains(&t);
+    let mut i = 0usize;
+    // every type x key x value, the other components cycling through their lists
+    for t in types {
+        for k in V_KEYS {
+            for v in V_VALS {
+                i += 1;
+                let (ns, name, ver, sub) = (V_NS[i % V_NS.len()], V_NAMES[i % V_NAMES.len()], V_VERS[i % V_VERS.len()], V_SUBS[i % V_SUBS.len()]);
+                // as a string: the writer's side of C02 (raw wherever the grammar permits, separators of the value escaped)
+                let esc = |x: &str| x.replace('%', "%25").replace('&', "%26").replace('#', "%23").replace('+', "%2B").replace(' ', "%20");
+                let mut s = format!("pkg:{}/", t);
+                if !ns.is_empty() {
+                    s.push_str(&ns.replace('@', "%40"));
+                    s.push('/');
+                }
+                s.push_str(name);
+                if !ver.is_empty() {
+                    s.push('@');
+                    s.push_str(&esc(ver));
+                }
+                s.push_str(&format!("?{}={}", k, esc(v).replace('?', "%3F")));
+                if !sub.is_empty() {
+                    s.push('#');
+                    s.push_str(sub);
+                }
+                parse_all(sink, &s);
+                // and through the builder
+                let ops = vec![json!(["new", cps(t), cps(name)]), json!(["with_namespace", cps(ns)]), json!(["with_version", cps(ver)]),
+                               json!(["with_qualifier", cps(k), cps(v)]), json!(["with_subpath", cps(sub)])];
+                emit_bseq(sink, typed_of(t), ops, &[ns, name, ver, v, sub]);
+            }
+        }
+    }
+    // every type x name x version (namespace cycling), no qualifiers
+    for t in types {
+        for name in V_NAMES {
+            for ver in V_VERS {
+                i += 1;
+                let ns = V_NS[i % V_NS.len()];
+                let s = format!("pkg:{}/{}{}{}{}", t, ns.replace('@', "%40"), if ns.is_empty() { "" } else { "/" }, name,
+                                if ver.is_empty() { String::new() } else { format!("@{}", ver.replace('+', "%2B")) });
+                parse_all(sink, &s);
+                let ops = vec![json!(["new", cps(t), cps(name)]), json!(["with_namespace", cps(ns)]), json!(["with_version", cps(ver)])];
+                emit_bseq(sink, typed_of(t), ops, &[ns, name, ver]);
+            }
+        }
+    }
+    // combined names as the ecosystems write them
+    #[cfg(feature = "pt")]
+    for t in TYPE_NAMES {
+        for c in V_COMBINED {
+            comb_event(sink, t, c);
         }
     }
 }
@@ -1004,6 +1143,8 @@ pub fn main(args: &[String]) {
         "type-strings" => drive_type_strings(&mut sink, &mut rng, n),
         #[cfg(feature = "pt")]
         "combined" => drive_combined(&mut sink, &mut rng, n),
+        "vocab" => drive_vocab(&mut sink, &mut rng, n),
+        "escapes" => drive_escapes(&mut sink, &mut rng, n),
         "pairs" => {
             let corpus = load_corpus(&arg_values(args, "--corpus"));
             drive_pairs(&mut sink, &mut rng, n, &corpus)
